@@ -16,6 +16,6 @@ CONSTANTS
   NZero = 0
   MaxBal = 3
   UMax = 7
-INVARIANTS TypeOK CanClose LedgerShape Conservation HeldSigsValid TagSeparation IssuedMatchesLedger TokenOnlyAfterRevocation ClosedOnUnrevoked
+INVARIANTS TypeOK CanClose LedgerShape Conservation HeldSigsValid TagSeparation IssuedMatchesLedger TokenOnlyAfterRevocation ClosedOnUnrevoked MerchantExposureBounded
 PROPERTIES RefusedStartInert HonestAccepted ReleaseOnlyOnAccept EventuallySettled
 CHECK_DEADLOCK FALSE
